@@ -41,6 +41,9 @@
 #include <fix8/ff/platforms/platform.h>
 #include <fix8/ff/mpmc/asm/abstraction_dcas.h>
 #include <fix8/ff/spin-lock.hpp>
+#ifdef FIX8_VERIF
+#include <fix8/verif_hooks.hpp>
+#endif
 
 
 /*
@@ -466,10 +469,19 @@ public:
         unsigned long pw,seq,idx;
         unsigned long bk = BACKOFF_MIN;
         do {
+#ifdef FIX8_VERIF
+            FIX8_VERIF_YIELD("push.read_ticket");
+#endif
             pw    = atomic_long_read(&preadP);
             idx   = pw & mask;
+#ifdef FIX8_VERIF
+            FIX8_VERIF_YIELD("push.read_seq");
+#endif
             seq   = atomic_long_read(&seqP[idx]);
             if (pw == seq) {
+#ifdef FIX8_VERIF
+                FIX8_VERIF_YIELD("push.cas");
+#endif
                 if (abstraction_cas((volatile atom_t*)&preadP, (atom_t)(pw+1), (atom_t)pw)==(atom_t)pw)
                     break;
 
@@ -479,7 +491,13 @@ public:
                 bk &= BACKOFF_MAX;
             }
         } while(1);
+#ifdef FIX8_VERIF
+        FIX8_VERIF_YIELD("push.subpush");
+#endif
         ((uSWSR_Ptr_Buffer*)(buf[idx]))->push(data); // cannot fail
+#ifdef FIX8_VERIF
+        FIX8_VERIF_YIELD("push.publish");
+#endif
         atomic_long_set(&seqP[idx],(pw+mask+1));
         return true;
     }
@@ -494,11 +512,23 @@ public:
         unsigned long bk = BACKOFF_MIN;
 
         do {
+#ifdef FIX8_VERIF
+            FIX8_VERIF_YIELD("pop.read_ticket");
+#endif
             pr     = atomic_long_read(&preadC);
             idx    = pr & mask;
+#ifdef FIX8_VERIF
+            FIX8_VERIF_YIELD("pop.read_seq");
+#endif
             seq    = atomic_long_read(&seqC[idx]);
             if (pr == (unsigned long)seq) {
+#ifdef FIX8_VERIF
+                FIX8_VERIF_YIELD("pop.check_pub");
+#endif
                 if (atomic_long_read(&seqP[idx]) <= (unsigned long)seq) return false; // queue
+#ifdef FIX8_VERIF
+                FIX8_VERIF_YIELD("pop.cas");
+#endif
                 if (abstraction_cas((volatile atom_t*)&preadC, (atom_t)(pr+1), (atom_t)pr)==(atom_t)pr)
                     break;
 
@@ -508,11 +538,20 @@ public:
                 bk &= BACKOFF_MAX;
             }
         } while(1);
+#ifdef FIX8_VERIF
+        FIX8_VERIF_YIELD("pop.subpop");
+#endif
         ((uSWSR_Ptr_Buffer*)(buf[idx]))->pop(data);
+#ifdef FIX8_VERIF
+        FIX8_VERIF_YIELD("pop.release");
+#endif
         atomic_long_set(&seqC[idx],(pr+mask+1));
         return true;
     }
 
+#ifdef FIX8_VERIF
+    friend struct ::fix8_verif_peek; // reads the ticket counters and sequence words
+#endif
 private:
     union {
         atomic_long_t  preadP;
